@@ -397,6 +397,10 @@ func cmdCheck(args []string) int {
 	if *only == "" || strings.HasPrefix(*only, "bounded") {
 		for _, bs := range loadBounded(*prop) {
 			br := runBounded(bs, *tier, int64(seed))
+			if br.Err != "" {
+				// build-cache contention or a loaded machine: one retry before calling it an engine error
+				br = runBounded(bs, *tier, int64(seed))
+			}
 			solverSecs += 0
 			item := map[string]interface{}{"label": "bounded", "name": bs.Name, "stands_for": bs.StandsFor, "bound": br.Bound, "cases": br.Cases, "distinct_nontrivial": br.Distinct, "samples": br.Samples, "secs": br.Secs, "test": bs.Test, "harness": "bounded/" + bs.File}
 			if br.Err != "" {
